@@ -4,6 +4,7 @@ go 1.21
 
 require (
 	github.com/anishathalye/porcupine v1.3.0
+	github.com/btcsuite/btcd v0.0.0-20190115013929-ed77733ec07d
 	github.com/gogo/protobuf v1.3.1
 	github.com/pokt-network/posmint v0.0.0
 	github.com/tendermint/go-amino v0.15.0
@@ -14,7 +15,6 @@ require (
 
 require (
 	github.com/beorn7/perks v1.0.0 // indirect
-	github.com/btcsuite/btcd v0.0.0-20190115013929-ed77733ec07d // indirect
 	github.com/davecgh/go-spew v1.1.1 // indirect
 	github.com/go-kit/kit v0.9.0 // indirect
 	github.com/go-logfmt/logfmt v0.4.0 // indirect
